@@ -292,7 +292,9 @@ fn cmd_digest(a: &Args) -> i32 {
     let workers = a.opts.get("workers").and_then(|s| s.parse().ok()).unwrap_or(1);
     let thorough = a.opts.contains_key("thorough");
     if a.opts.contains_key("reverse") {
-        // one scenario at a time, in descending order, in this process
+        // one scenario at a time, in descending order, in this process; scenarios with several
+        // rules load them last to first
+        exec::REVERSE_RULES.store(true, std::sync::atomic::Ordering::Relaxed);
         for run in (from..to).rev() {
             let sc = props::generate(prop, kind, seed, run, thorough);
             let o = execute_isolated(&sc);
